@@ -69,15 +69,17 @@ def gate_bool(tname, vals):
 
 
 def input_vectors(n):
-    """Bit-vectors of the n inputs over all 2**n assignments."""
+    """Bit-vectors of the n inputs over all 2**n assignments (built by doubling)."""
     rows = 1 << n
     vecs = []
     for i in range(n):
         sh = n - 1 - i
-        v = 0
-        for j in range(rows):
-            if (j >> sh) & 1:
-                v |= 1 << j
+        block = 1 << sh  # run length: `block` zeros then `block` ones
+        v = ((1 << block) - 1) << block
+        width = 2 * block
+        while width < rows:
+            v |= v << width
+            width *= 2
         vecs.append(v)
     return vecs
 
